@@ -137,9 +137,6 @@ func (e *env) runRaw(in RawInput) (RawObs, string) {
 	sent := concatB(in.Segs)
 	seen := sent
 	if in.Transport == "udp" {
-		if in.Shared && in.Via == "server" && len(seen) > 1024 {
-			seen = seen[:1024] // what the service's one Read returns behind the peek wrapper
-		}
 		ob.Parses = new(dns.Msg).Unpack(seen) == nil
 	} else if in.Svc == "dns-proxy" && len(in.Segs) > 0 {
 		// the stream branch reads one length-framed message: the oracle is about that message
@@ -462,7 +459,7 @@ func genRawInputs(o hx.Opts, r *hx.Rand) []RawInput {
 		ins = append(ins, RawInput{Svc: "dns-proxy", Transport: "udp", Via: "server", Shared: true, Segs: []hx.B{q}, Reply: []hx.B{a}})
 		ins = append(ins, RawInput{Svc: "copy", Transport: "tcp", Via: "server", Shared: true, Segs: []hx.B{hx.B("first segment, "), hx.B("second")}, Reply: []hx.B{hx.B("ok")}})
 		ins = append(ins, RawInput{Svc: "copy", Transport: "udp", Via: "server", Shared: true, Segs: []hx.B{hx.B("datagram")}, Reply: []hx.B{hx.B("ok")}})
-		// known finding: a datagram beyond the server's 1024-byte peek, on the shared port
+		// regression (repaired 7028cca): a datagram beyond the server's 1024-byte peek, on the shared port
 		ins = append(ins, RawInput{Svc: "copy", Transport: "udp", Via: "server", Shared: true, Segs: []hx.B{hx.B(bytes.Repeat([]byte("0123456789abcdef"), 80))}, Reply: []hx.B{hx.B("ok")}})
 	}
 	n := 40
